@@ -127,6 +127,48 @@ static void ifa_gen(Ctx& ctx) {
             }
 }
 
+// =========================================================================================== ifft near the top of the double range
+// ifft(fft(x)) must reproduce x whenever x and fft(x) are representable.  For lengths that only use the radix-2/3/5 butterflies
+// (never a chirp-z convolution, whose intermediate products need extra headroom) the inverse of a finite spectrum never exceeds
+// max|X| in its partial sums - provided the 1/n scaling is applied where the library applies it.  x: 1..3 non-zero samples of
+// magnitude DBL_MAX/32, so max|fft(x)| <= DBL_MAX/10.
+VK_SUB(hdr, "ifft_headroom");
+static void hdr_check(const Json& c, Out& o) {
+    const int n = c.geti("n"), k = c.geti("k");
+    Rng r(c.getu("seed"));
+    arr_cmplx x(n);
+    const double A = std::numeric_limits<double>::max() / 32;
+    for (int j = 0; j < k; ++j) { const double ph = r.uni(0, 2 * M_PI); x[r.range(0, n - 1)] = cmplx_t(A * std::cos(ph), A * std::sin(ph)); }
+    const auto xl = to_cld(x);
+    const arr_cmplx X = fft(x);
+    for (int i = 0; i < n; ++i) if (!std::isfinite(X[i].re) || !std::isfinite(X[i].im)) { o.label("premise-failed:fft(x) not finite"); o.discard = true; return; }
+    IfftPlan plan(n);
+    std::pair<const char*, std::vector<cld>> got[] = {{"ifft(fft(x))", to_cld(ifft(X))}, {"IfftPlan()(fft(x))", to_cld(plan(X))}};
+    for (auto& g : got) {
+        bool fin = g.second.size() == size_t(n);
+        for (auto& v : g.second) fin = fin && std::isfinite(double(v.real())) && std::isfinite(double(v.imag()));
+        if (!fin) { o.fail("ifft:headroom:not-finite", fmt("%s n=%d, %d samples of magnitude DBL_MAX/32 (fft(x) is finite, max|X| <= DBL_MAX/10): result contains inf/nan", g.first, n, k)); return; }
+        double rt = ratio_of(g.second, xl, n, 64);
+        o.metric("ifft-headroom roundtrip err/tol", rt);
+        if (!(rt <= 1)) { o.fail("ifft:headroom:roundtrip", fmt("%s n=%d: ||y-x||/(64 n eps ||x||) = %.4g", g.first, n, rt)); return; }
+    }
+    o.nontrivial(key_of(n, k, 0x4D));
+    o.label(fmt("nonzero-samples:%d", k));
+    o.label(n < 64 ? "n:<64" : n < 1024 ? "n:64-1023" : "n:>=1024");
+    o.evals = 2;
+}
+static void hdr_gen(Ctx& ctx) {
+    for (int n = 16; n <= (small_tier(ctx) ? 4096 : 65536); ++n) {
+        int m = n;
+        for (int p : {2, 3, 5}) while (m % p == 0) m /= p;
+        if (m != 1) continue;
+        for (int k = 1; k <= 3; ++k) {
+            if (!ctx.mine()) continue;
+            ctx.eval(Json::object().set("n", n).set("k", k).set("seed", (long long)(mix(ctx.seed, key_of(n, k, 0x4D)) >> 16)));
+        }
+    }
+}
+
 // =========================================================================================== irfft, every even length
 VK_SUB(ira, "irfft_even_lengths");
 static void ira_check(const Json& c, Out& o) {
